@@ -27,7 +27,11 @@ EXTENDS Integers, Sequences, FiniteSets, TLC
 
 CONSTANTS Shapes,      \* set of records [name, cells, valid]  (valid = FALSE: the ring touches itself)
           NCols, NRows, MaxRegs, MaxLines,
-          Legacy       \* TRUE: line ids without the orientation tag (current tree)
+          Legacy,      \* TRUE: line ids without the orientation tag (current tree)
+          CRegSets,    \* Part C: set of sets of rectangles [name, x0, y0, x1, y1] (px)
+          CLineSet,    \* Part C: set of tilted baselines [slot, di, a, d, n, ks, h]
+          CMaxLines,   \* Part C: at most that many baselines on a page
+          MergeBackSame \* TRUE (self-test only): merge_lines rotates "back" by the SAME angle as forth (seeded slip C11-A8)
 
 VARIABLES regs,        \* set of shapes on the page / returned by the stub detector
           lines,       \* sequence of detected lines [j, a, b]
@@ -186,11 +190,74 @@ MergeDone == /\ phase = "merge" /\ mi > Len(page)
              /\ phase' = "done"
              /\ UNCHANGED <<page, oi, mi>> /\ NoAssign
 
-\* two machines over the same variables: TLC runs Part A with INIT AInit / NEXT ANext and Part B with INIT BInit / NEXT BNext
+-----------------------------------------------------------------------------
+(* Part C (INIT CInit, NEXT CNext): tilted baselines (a skewed page) in rectangular regions, through the orientation
+   loop and the merge loop of LayoutExtractor.process_page (DETECT_LINES on, MERGE_LINES on / off).
+   A rectangle is [name, x0, y0, x1, y1] in px.  A detected baseline is [slot, di, a, d, n, ks, h]: points a + ks[m] * d with
+   d = <<dx, dy>> a Pythagorean direction, dx^2 + dy^2 = n^2 (rotations by the tilt are then exact in integers), h = <<ascender,
+   descender>>, slot = number of its row, di = number of its direction (all baselines of a page share one direction: the page skew).
+   merge_lines(baselines of ONE region): rotation = mean tilt of the LONGER HALF of the lines (none for fewer than two lines),
+   all baselines are de-skewed by a rotation about the ORIGIN, merges are decided on the de-skewed lines (rows that overlap
+   by more than 0.7 of the smaller height ...), and the result is rotated BACK by the opposite angle; the lines are then assigned
+   to the region again.  Lines in rows that do not overlap are not mergeable: for them the two rotations cancel and the line is
+   placed as it was detected - which is what the statement says about every line wholly inside a region.  Points are kept as
+   integer numerators: after the merge step every coordinate is scaled by s = n^2.
+   Pieces of baselines that cross a rectangle's border are not modelled here (left to the trace layer: any piece).          *)
+CAbs(x) == IF x < 0 THEN -x ELSE x
+CPts(l) == [m \in 1..Len(l.ks) |-> <<l.a[1] + l.ks[m] * l.d[1], l.a[2] + l.ks[m] * l.d[2]>>]
+CScale(pts, s) == [m \in 1..Len(pts) |-> <<s * pts[m][1], s * pts[m][2]>>]
+CInRect(r, p, s) == s * r.x0 < p[1] /\ p[1] < s * r.x1 /\ s * r.y0 < p[2] /\ p[2] < s * r.y1
+CWhollyIn(r, l) == \A m \in 1..Len(l.ks) : CInRect(r, CPts(l)[m], 1)
+\* rotation about the origin by the tilt of direction d; the result is |d| times the rotated point.  RotF de-skews (d itself goes
+\* to <<|d|^2, 0>>), RotB is the opposite rotation: RotB(RotF(p, d), d) = |d|^2 * p
+RotF(p, d) == <<d[1] * p[1] + d[2] * p[2], d[1] * p[2] - d[2] * p[1]>>
+RotB(p, d) == <<d[1] * p[1] - d[2] * p[2], d[1] * p[2] + d[2] * p[1]>>
+CListsOver(S) == {s \in UNION {[1..n -> S] : n \in 0..CMaxLines} : \A i, j \in DOMAIN s : i < j => s[i].slot < s[j].slot}
+CLineLists == UNION {CListsOver({l \in CLineSet : l.di = k}) : k \in {l.di : l \in CLineSet}}
+CN == IF Len(lines) = 0 THEN 1 ELSE lines[1].n
+CDir == IF Len(lines) = 0 THEN <<1, 0>> ELSE lines[1].d
+CRect(name) == CHOOSE r \in regs : r.name = name
+
+CInit == /\ regs \in CRegSets /\ lines \in CLineLists
+         /\ placed = {}
+         /\ opt \in [dr : {FALSE}, dl : {TRUE}, merge : BOOLEAN, multi : {FALSE}]
+         /\ page = <<>> /\ oi = 1 /\ mi = 1 /\ phase = "c-detect"
+\* orientation loop (one orientation): every baseline wholly inside a rectangle is placed there unchanged
+CAssign == /\ phase = "c-detect"
+           /\ placed' = {[region |-> rn[1].name, line |-> rn[2], pts |-> CPts(lines[rn[2]]), s |-> 1] :
+                            rn \in {x \in regs \X (1..Len(lines)) : CWhollyIn(x[1], lines[x[2]])}}
+           /\ phase' = IF opt.merge THEN "c-merge" ELSE "done"
+           /\ UNCHANGED <<regs, lines, opt, page, oi, mi>>
+CRegLines(name) == {p \in placed : p.region = name}
+\* get_rotation: lines_info[0 : int(len / 2)] - no rotation for fewer than two lines (<<CN, 0>> = angle 0 at the same scale)
+CTilt(name) == IF Cardinality(CRegLines(name)) < 2 THEN <<CN, 0>> ELSE CDir
+\* de-skewed row of a placed line: from its highest point minus the ascender to its lowest point plus the descender (times CN)
+CRowLo(p) == LET ys == {RotF(p.pts[m], CTilt(p.region))[2] : m \in DOMAIN p.pts} IN MinOf(ys) - CN * lines[p.line].h[1]
+CRowHi(p) == LET ys == {RotF(p.pts[m], CTilt(p.region))[2] : m \in DOMAIN p.pts} IN MaxOf(ys) + CN * lines[p.line].h[2]
+CUnmergeable == \A p, q \in placed : (p # q /\ p.region = q.region) => (CRowHi(p) <= CRowLo(q) \/ CRowHi(q) <= CRowLo(p))
+CBack(q, d) == IF MergeBackSame THEN RotF(q, d) ELSE RotB(q, d)
+\* merge loop, all regions: de-skew, (nothing to merge), rotate back, assign to the region again
+CMerge == /\ phase = "c-merge" /\ CUnmergeable
+          /\ LET moved == {[p EXCEPT !.pts = [m \in DOMAIN p.pts |-> CBack(RotF(p.pts[m], CTilt(p.region)), CTilt(p.region))],
+                                     !.s = CN * CN] : p \in placed}
+             IN placed' = {q \in moved : \A m \in DOMAIN q.pts : CInRect(CRect(q.region), q.pts[m], q.s)}
+          /\ phase' = "done"
+          /\ UNCHANGED <<regs, lines, opt, page, oi, mi>>
+CNext == CAssign \/ CMerge
+
+CPieceOfDetected == \A p \in placed : /\ p.pts = CScale(CPts(lines[p.line]), p.s)
+                                      /\ \A m \in DOMAIN p.pts : CInRect(CRect(p.region), p.pts[m], p.s)
+CWhollyInsideKept == phase = "done" => \A r \in regs, n \in 1..Len(lines) :
+                        CWhollyIn(r, lines[n]) => \E p \in placed : /\ p.region = r.name /\ p.line = n
+                                                                    /\ p.pts = CScale(CPts(lines[n]), p.s)
+\* the cases of the family are un-mergeable (else CMerge would not be enabled and "done" never reached)
+CMergeEnabled == phase = "c-merge" => CUnmergeable
+
+\* machines over the same variables: TLC runs Part A with INIT AInit / NEXT ANext and Part B with INIT BInit / NEXT BNext
 ANext == AssignAll
 BNext == Clear \/ Orient \/ OrientDone \/ MergeIter \/ MergeDone
-Init == AInit \/ BInit
-Next == ANext \/ BNext
+Init == AInit \/ BInit \/ CInit
+Next == ANext \/ BNext \/ CNext
 
 RECURSIVE Flat(_)
 Flat(ss) == IF ss = <<>> THEN <<>> ELSE Head(ss) \o Flat(Tail(ss))
